@@ -182,6 +182,13 @@ class Engine(object):
             a, b = args
             return ListV(run.new_cell(st, App("irange", (a, b), Seq(INT))), Type("int"))
 
+        def sf_store(run, st, args, node):
+            from .terms import Store
+
+            a, k, v = args
+            return Store(a, run.raw(st, k), run.raw(st, v))
+
+        self.spec_funcs["store"] = sf_store
         self.spec_funcs["irange"] = sf_irange
         UFS["irange"] = ([INT, INT], Seq(INT))
         self.spec_funcs["J"] = sf_J
